@@ -16,7 +16,7 @@ RULE = (
     "entries inside real visits or padding"
 )
 REQUIRED = {"cmp_state_terms": 150, "cmp_suffstats": 150, "cmp_mstep": 60, "cmp_personalize": 20, "cmp_fit": 10, "twins_garbage": 30, "twins_widened": 12,
-            "masked_in_visit_entries_cases": 8, "padding_cases": 12, "cmp_reput": 100, "cmp_noise_recount": 15}
+            "masked_in_visit_entries_cases": 8, "padding_cases": 12, "cmp_reput": 100, "cmp_noise_recount": 15, "cmp_noise_recount_frozen_state_averaged_steps": 20}
 ASSUMPTIONS = [
     "garbage twins: bit-identity demanded (same shapes and op order; masked numbers must never enter a sum)",
     "widened twins: 5e-6 relative; MCMC-based personalisation and fits are not judged under widening (a one-ulp change may legitimately flip a "
@@ -281,6 +281,44 @@ def run_shard(spec, ctx):
             if has_in_visit or has_pad:
                 for fam in ("state_terms", "suffstats", "mstep", "personalize"):
                     ctx.distinct(case["model"], missing, twin_kind, gname or w, fam)
+        # ---- noise recount across the real maximisation steps of one algorithm object on a FROZEN state (no sampling in between): the
+        # residuals do not move, so after every step - memory-less, first with memory, averaged - the noise level must be the RMS residual
+        # over the observed entries of the table (a twin comparison is blind to an error both twins share) --------------------------------
+        if "noise_std" in model.parameters_names and noise and noise.startswith("gaussian"):
+            try:
+                from vf.checks.c02 import make_algo
+
+                m3 = new_model()
+                m3.initialize(ds)
+                nb = int(rng.integers(0, 4))
+                algo, st3 = make_algo(m3, ds, ctx.rng("frozen", spec["k"], i), n_iter=12, n_burn_in_iter=nb, n_burn_in_iter_frac=None)
+                mod = st3["model"]
+                mod = (mod.weighted_value if isinstance(mod, WeightedTensor) else mod).double().numpy()
+                yy, mm = ds.values.double().numpy(), ds.mask.numpy().astype(bool)
+                res2 = np.where(mm, (yy - mod) ** 2, 0.0)
+                for it in range(1, nb + 5):
+                    algo.current_iteration = it
+                    algo._maximization_step(m3, st3)
+                    got = st3["noise_std"].double().numpy().reshape(-1)
+                    want = np.sqrt(res2.sum(axis=(0, 1)) / mm.sum(axis=(0, 1))) if got.size > 1 else np.sqrt(res2.sum() / mm.sum()).reshape(1)
+                    ctx.count("cmp_noise_recount_frozen_state")
+                    if it > nb + 1:
+                        ctx.count("cmp_noise_recount_frozen_state_averaged_steps")
+                    ctx.evaluated()
+                    if not np.allclose(got, want, rtol=5e-4, atol=1e-6):
+                        ctx.violation("masked/noise-estimate-not-over-observed-entries",
+                                      f"noise level after maximisation step {it} of a run on a frozen state (memory-less phase = {nb} iterations) is not the RMS "
+                                      "residual over the observed entries of the table",
+                                      {"index": i, "model": list(map(str, g)), "missing": missing, "twin": "none", "frozen_state_step": it, "n_burn_in_iter": nb},
+                                      got=got.tolist(), want=want.tolist())
+                        break
+            except Exception as e:
+                from leaspy.exceptions import LeaspyConvergenceError
+
+                ctx.count("frozen_recount_skipped")
+                if not isinstance(e, LeaspyConvergenceError):
+                    ctx.note(f"frozen_recount_skipped_{type(e).__name__}", str(e)[:200])
+
         # ---- re-put relation: a state that already holds dataset A (fully evaluated) then receives dataset B must equal a fresh state
         # loaded with B - in particular when B's numbers are those of A and only its mask differs (entries that became missing)
         try:
